@@ -65,6 +65,8 @@ class ParserState:
                 self.langs[fn] = language
             else:
                 self.langs[fn] = FileLanguage(fn).get_language()
+            if verif.ENABLED:
+                verif.emit("Parsed", file=fn, lang=self.langs[fn])
 
     def get_filenames(self):
         """
